@@ -21,7 +21,17 @@ let cmd_data (x : sx) : sx =
       L [ sx_of_list (sx_of_list sx_of_zpair) d; sx_of_list (sx_of_list sx_of_zpair) g ]
   | _ -> failwith "data: expected (rows edge_nodes edge_faces dist node_centred)"
 
+(* (sup_end sup_efd edge_nodes edge_faces (op ...)) -> per prefix of the history: (end present, efd present) *)
+let cmd_history (x : sx) : sx =
+  match x with
+  | L [se; sf; en; ef; ops] ->
+      let b s = (int_of_sx s) <> 0 in
+      sx_of_table (c16_history_presence (b se) (b sf) (list_of_sx zpair_of_sx en) (list_of_sx zpair_of_sx ef)
+                     (list_of_sx z_of_sx ops))
+  | _ -> failwith "history: expected (sup_end sup_efd edge_nodes edge_faces ops)"
+
 let commands : (string * (sx -> sx)) list = [
+  "history", cmd_history;
   "plans", cmd_plans;
   "data", cmd_data;
 ]
